@@ -201,10 +201,13 @@ theorem replay (cfg : Cfg σ) (k n : Nat) (hn : 0 < n) (C : Nat → Nat) (L : Li
     obtain ⟨s4, hff4, hn4, hl4⟩ := ih (P ++ [(sp, i)]) s3 (by omega) hq3 hl3' hidx3 hB3
     exact ⟨s4, (hff2.trans hff3).trans hff4, hn4, by simpa using hl4⟩
 
-/-- the statement of `Rxn.C01.failure_free_realizable` for a state satisfying the invariant -/
+theorem not_live_of_not_failure (a : Act) (h : a.isFailure = false) : a.isLiveRedeploy = false := by
+  cases a <;> first | rfl | cases h
+
+/-- the statement of `Rxn.C01.failure_free_realizable_partial` for a state satisfying the invariant -/
 theorem failure_free_of_inv (cfg : Cfg σ) (wf : cfg.WF) (s : State σ) (hi : Inv cfg s) (hn : 0 < s.n) (k : Nat) :
     ∃ as' s' obs', run cfg as' = some (s', obs') ∧ as'.head? = some (Act.restart s.n false) ∧
-      (∀ a ∈ as'.tail, a.isFailure = false) ∧ s'.n = s.n ∧
+      (∀ a ∈ as'.tail, a.isFailure = false) ∧ (∀ a ∈ as', a.isLiveRedeploy = false) ∧ s'.n = s.n ∧
       s'.log (cfg.route s.n k) k = s.log (cfg.route s.n k) k ∧
       s'.st (cfg.route s.n k) k = s.st (cfg.route s.n k) k := by
   have hB : ∀ sp, ∃ B, idxOf sp ([] ++ s.log (cfg.route s.n k) k) ++ B = routed cfg k sp (s.cursor sp) :=
@@ -218,8 +221,13 @@ theorem failure_free_of_inv (cfg : Cfg σ) (wf : cfg.WF) (s : State σ) (hi : In
       rfl
     simp only [run, runFrom, h0, hr2]
   rw [List.nil_append] at hl2
-  refine ⟨_, s2, _, hrun, rfl, hf2, hn2, hl2, ?_⟩
-  have hi2 := inv_run cfg wf _ s2 _ hrun
+  have hlive : ∀ a ∈ Act.restart s.n false :: as2, a.isLiveRedeploy = false := by
+    intro a ha
+    rcases List.mem_cons.1 ha with h | h
+    · subst h; rfl
+    · exact not_live_of_not_failure a (hf2 a h)
+  refine ⟨_, s2, _, hrun, rfl, hf2, hlive, hn2, hl2, ?_⟩
+  have hi2 := inv_run cfg wf _ s2 _ hlive hrun
   rw [hi2.hst, hi.hst, hl2]
 
 end Rxn.Pipeline
